@@ -262,6 +262,47 @@ def check_case(ctx, case):
                 continue
             break
         del got
+    # (vii) a SIBLING table on the same temperatures, alive in the same
+    # process: each of the two correlations still reproduces ITS OWN points
+    # (anything remembered per grid, per first value, per hash of the table
+    # would mix them up)
+    if 'raw' in surfaces and case.get('sibling') is not False and \
+            not case.get('_is_sibling'):
+        for how, f in (('negated', lambda v: -v), ('plus one', lambda v: v + 1),
+                       ('-1 <-> -2', None)):
+            sib = dict(case, _is_sibling=True)
+            if f is None:
+                # two tables of -1.0s and -2.0s (numbers whose hashes
+                # coincide) on this grid
+                first = dict(case, _is_sibling=True, Cps=[-1.0] * len(
+                    case['Cps']), H_ref=-1.0, S_ref=-1.0)
+                sib = dict(first, Cps=[-2.0] * len(case['Cps']), H_ref=-2.0,
+                           S_ref=-2.0)
+            else:
+                first = case
+                sib['Cps'] = [f(v) for v in case['Cps']]
+            oa = observe(build, first, 'raw')
+            ob = observe(build, sib, 'raw')
+            if 'exc' in oa or 'exc' in ob:
+                continue
+            for who, obj, cs in (('first', oa['ok'], first),
+                                 ('sibling', ob['ok'], sib)):
+                for T, want in zip(cs['Ts'], cs['Cps']):
+                    g = observe(obj.get_CpoR, T)
+                    ctx.evals()
+                    if 'exc' in g or not close(g['ok'], want, rel=1e-9,
+                                               abs_=1e-9 * (abs(want) + 1)):
+                        ctx.violation('a correlation built next to a sibling '
+                                      'table (%s) does not reproduce its own '
+                                      'points' % how, case,
+                                      {'which': who, 'T': T, 'want': want,
+                                       'got': repr(g.get('ok', g.get('exc')))})
+                        complete = False
+                        break
+                else:
+                    continue
+                break
+        ctx.count('sibling_tables_checked', 3)
     # raw vs incomplete agree
     if 'raw' in tables_by_surface and 'incomplete' in tables_by_surface:
         A, B = tables_by_surface['raw'], tables_by_surface['incomplete']
